@@ -38,8 +38,10 @@ def builtin_fn(ex, st, nm, e, cx, k):
                 return k(st, SV(INT, ex.list_len(st, v)))
             if t.kind in ('seq', 'str'):
                 return k(st, SV(INT, z3.Length(v.z)))
+            if t.kind == 'cfg':
+                return k(st, SV(INT, ex.uf('cfg_len', z3.IntSort(), z3.IntSort())(v.z)))
             if t.kind in ('dict', 'set', 'mset'):
-                return k(st, SV(INT, ex.bi_card(st, v)))
+                raise VCError('len of dict/set outside subset')
             raise VCError(f'len of {t!r} outside subset')
         return ex.ev(st, args[0], cx, f)
     if nm == 'isinstance':
@@ -264,6 +266,22 @@ def builtin_method(ex, st, obj, mname, args, kwargs, cx, node, k):
             return k(ex.set_list(st, obj, n, z3.Lambda([jv], z3.Select(arr, n - 1 - jv))), NONE_SV)
         if mname == 'clear':
             return k(ex.set_list(st, obj, I(0), arr), NONE_SV)
+    # ---- configuration node (parsed YAML) ------------------------------------------------------
+    if t.kind == 'cfg':
+        if mname == 'get':
+            key = args[0]
+            has = ex.uf('cfg_has', z3.IntSort(), z3.StringSort(), z3.BoolSort())(obj.z, key.z)
+            got = SV(T.CFG, ex.uf('cfg_get', z3.IntSort(), z3.StringSort(), z3.IntSort())(obj.z, key.z))
+            dflt = args[1] if len(args) > 1 else NONE_SV
+            if dflt.ty.kind == 'none':
+                return k(st, SV(T.opt(T.CFG), z3.If(has, got.z, I(0))))
+            if dflt.ty.kind in ('int', 'str', 'bool'):
+                return k(st, SV(dflt.ty, z3.If(has, ex.coerce(got, dflt.ty).z, dflt.z)))
+            if dflt.ty.kind == 'cfg' or T.is_reflike(dflt.ty):
+                return k(st, SV(T.CFG, z3.If(has, got.z, dflt.z)))
+            raise VCError(f'cfg.get default of type {dflt.ty!r}')
+        if mname in ('keys', 'items', 'values'):
+            raise VCError('iteration over configuration dict keys outside subset')
     # ---- dict -----------------------------------------------------------------------------
     if t.kind == 'dict':
         kt, vt = t.args
